@@ -131,8 +131,138 @@ def build(carrier_src, pos, node):
     return tree.body[0]
 
 
+SUITES = ["if", "else", "while", "welse", "for", "felse"]
+
+
+def nest_function(path, node):
+    """f(a, b) with `node` at the end of the nesting path (a sequence over
+    SUITES: arm of an if, its else arm, loop body, loop else clause ...); every
+    suite on the way also holds ordinary statements before and after."""
+    uid = [10]
+
+    def k():
+        uid[0] += 1
+        return uid[0]
+
+    def wrap(inner, kind):
+        pre = _s(f"x = ext({k()}, x)")
+        post = _s(f"y = ext({k()}, y)")
+        other = [_s(f"ext({k()}, 0)")]
+        if kind == "if":
+            st = ast.If(test=_e(f"d({k()})"), body=inner, orelse=[])
+        elif kind == "else":
+            st = ast.If(test=_e(f"d({k()})"), body=other, orelse=inner)
+        elif kind == "while":
+            st = ast.While(test=_e(f"d({k()})"), body=inner, orelse=[])
+        elif kind == "welse":
+            st = ast.While(test=_e(f"d({k()})"), body=other, orelse=inner)
+        elif kind == "for":
+            st = ast.For(target=ast.Name(f"i{k()}", ast.Store()), iter=_e(f"it({k()}, 2)"),
+                         body=inner, orelse=[])
+        else:
+            st = ast.For(target=ast.Name(f"i{k()}", ast.Store()), iter=_e(f"it({k()}, 2)"),
+                         body=other, orelse=inner)
+        return [pre, st, post]
+
+    body = [_s(f"x = ext({k()}, x)"), node, _s(f"y = ext({k()}, y)")]
+    for kind in reversed(path):
+        body = wrap(body, kind)
+    fn = ast.FunctionDef(
+        name="f", args=ast.parse("def f(a, b): pass").body[0].args,
+        body=[_s("x = a"), _s("y = b")] + body + [_s("return x + y")],
+        decorator_list=[], returns=None, type_comment=None, type_params=[])
+    return ast.fix_missing_locations(fn)
+
+
+def nest_paths(depth):
+    import itertools
+    for d in range(1, depth + 1):
+        yield from itertools.product(SUITES, repeat=d)
+
+
 def plan(tier, seed):
-    return [{"kind": "all", "tier": tier}]
+    shards = [{"kind": "all", "tier": tier}]
+    if tier == "quick":
+        shards.append({"kind": "nest", "depth": 3, "shard": 0, "nshards": 1, "variants": 1, "tier": tier})
+        shards.append({"kind": "nest_sample", "seed": seed, "count": 400, "mindepth": 4, "maxdepth": 7,
+                       "tier": tier})
+    else:
+        for s in range(32):
+            shards.append({"kind": "nest", "depth": 5, "shard": s, "nshards": 32, "variants": 4,
+                           "tier": tier})
+        for s in range(8):
+            shards.append({"kind": "nest_sample", "seed": seed * 8 + s, "count": 2500, "mindepth": 6,
+                           "maxdepth": 10, "tier": tier})
+    return shards
+
+
+def run_nest(spec, acc):
+    """depth: the unsupported statement below 1..D enclosing suites"""
+    import random
+
+    from numba_scfg.core.datastructures.ast_transforms import AST2SCFG
+
+    tmpl = templates()
+    names = sorted(tmpl)
+    if spec["kind"] == "single":
+        c = spec["case"]
+        todo = [(tuple(c["path"]), c["stmt"], c["variant"])]
+    elif spec["kind"] == "nest":
+        todo = []
+        for pi, path in enumerate(nest_paths(spec["depth"])):
+            if pi % spec["nshards"] != spec["shard"]:
+                continue
+            for name in names:
+                for vi in range(min(spec["variants"], len(tmpl[name]))):
+                    # with one variant per class the variant rotates with the path
+                    v = (vi + pi) % len(tmpl[name]) if spec["variants"] == 1 else vi
+                    todo.append((path, name, v))
+    else:
+        rng = random.Random(f"c11n/{spec['seed']}")
+        todo = []
+        for _ in range(spec["count"]):
+            d = rng.randint(spec["mindepth"], spec["maxdepth"])
+            name = rng.choice(names)
+            todo.append((tuple(rng.choice(SUITES) for _ in range(d)), name,
+                         rng.randrange(len(tmpl[name]))))
+    for path, name, vi in todo:
+        try:
+            node = tmpl[name][vi]()
+        except SyntaxError:
+            continue
+        ctx = core.set_ctx(core.Ctx(None))
+        case = {"kind": "nested", "stmt": name, "variant": vi, "path": list(path)}
+        acc.counters["nest.depth_%d" % len(path)] += 1
+        outcome = None
+        fn = nest_function(path, node)
+        forms = [("ast", [fn])]
+        try:
+            src_text = ast.unparse(fn)
+            ast.parse(src_text)
+            forms.append(("source", src_text))
+        except Exception:
+            pass
+        for form, arg in forms:
+            try:
+                AST2SCFG(arg)
+                outcome = "graph_returned"
+            except NotImplementedError:
+                outcome = "refused"
+            except RecursionError:
+                outcome = "other_exception:RecursionError"
+            except Exception as e:
+                outcome = "other_exception:" + type(e).__name__
+            if outcome != "refused":
+                break
+        dispatched = ctx.data.get("a2s_nodes", {}).get(name, 0) > 0
+        if dispatched:
+            ctx.hit("c11.unsupported_dispatched")
+        if outcome != "refused":
+            ctx.violation("C11", f"nested:{outcome}:{name}",
+                          {"depth": len(path), "path": list(path), "variant": vi, "form": form,
+                           "source": ast.unparse(nest_function(path, tmpl[name][vi]()))[:900]})
+        acc.add_ctx(ctx, case, nontrivial_hash=core.sha([name, vi, list(path)]) if dispatched else None,
+                    sample=(acc.evaluations % 997 == 0))
 
 
 def run_shard(spec):
@@ -140,6 +270,10 @@ def run_shard(spec):
 
     attach.install(("a2s",))
     acc = ShardAcc(PROPERTY)
+    if spec["kind"] in ("nest", "nest_sample") or (
+            spec["kind"] == "single" and spec["case"].get("kind") == "nested"):
+        run_nest(spec, acc)
+        return acc.result()
     stmt_classes = sorted(
         n for n, c in vars(ast).items()
         if isinstance(c, type) and issubclass(c, ast.stmt) and c is not ast.stmt
